@@ -350,9 +350,9 @@ class Gen:
                 m = re.match(r'loop\s+(\d+)\s*:\s*(.*)$', dd)
                 if m:
                     loops[int(m.group(1))] = m.group(2); last, lastk = 'loop', int(m.group(1)); continue
-                m = re.match(r'ghost\s+(before|after)\s+"(.*?)"\s*:\s*(.*)$', dd)
+                m = re.match(r'ghost\s+(start)()\s*:\s*(.*)$', dd) or re.match(r'ghost\??\s+(before|after)\s+"(.*?)"\s*:\s*(.*)$', dd)
                 if m:
-                    ghosts.append((m.group(1), m.group(2), m.group(3))); last, lastk = 'ghost', 0; continue
+                    ghosts.append((m.group(1), m.group(2), m.group(3), dd.startswith('ghost?'))); last, lastk = 'ghost', 0; continue
                 m = re.match(r'subst\s+"(.*)"\s*=>\s*"(.*)"(?:\s+(R\d))?$', dd)
                 if m:
                     substs.append((m.group(1), m.group(2), m.group(3) or 'R5')); continue
@@ -365,7 +365,7 @@ class Gen:
                     # continuation of the previous loop/closure/ghost directive
                     extra = dd[1:].strip()
                     if ghosts and last == 'ghost':
-                        g = ghosts[-1]; ghosts[-1] = (g[0], g[1], g[2] + '\n' + extra)
+                        g = ghosts[-1]; ghosts[-1] = (g[0], g[1], g[2] + '\n' + extra, g[3])
                     elif last == 'loop':
                         loops[lastk] += '\n' + extra
                     elif last == 'closure':
@@ -421,8 +421,13 @@ class Gen:
                 ob = lp[k - 1][1]
                 edits.append((ob, ob, '\n' + inv + '\n', 'R3'))
         # ghost insertions
-        for where, anchor, text in ghosts:
+        for where, anchor, text, opt in ghosts:
+            if where == 'start':
+                edits.append((1, 1, ' ' + text + ' ', 'G'))
+                continue
             cnt = btxt.count(anchor)
+            if cnt == 0 and opt:
+                continue
             if cnt != 1:
                 raise Undecided('lost anchor: ghost anchor %r occurs %d times in fn %s' % (anchor, cnt, label))
             p = btxt.find(anchor)
